@@ -237,9 +237,7 @@ def r3_lift_only_sole_term(ctx):
 
 
 def run(ctx):
-    r1_placeholders_patched(ctx)
-    r2_branch_reset(ctx)
-    r3_lift_only_sole_term(ctx)
+    ctx.run_rules([r1_placeholders_patched, r2_branch_reset, r3_lift_only_sole_term])
     ctx.note("NOT decided: stack offsets (Pick/Rotate), local-slot alignment (nil fill, Reset), branch ordering, instruction semantics — the values programs compute are out of reach of a static analysis of the compiler's source")
     return (
         "Decides ONE structural necessary condition of C02: every placeholder jump planted by the code generator is pointed at its join on every "
